@@ -552,7 +552,7 @@ MUTANTS = [
      'find': "        interfaces = self.get_first_neighbor(node_id=node_id, rel=ABCPropertyGraph.REL_CONNECTS,\n                                             node_label=ABCPropertyGraph.CLASS_ConnectionPoint)\n        self.delete_node(node_id=node_id)\n        for iif in interfaces:",
      'replace': "        self.delete_node(node_id=node_id)\n        interfaces = self.get_first_neighbor(node_id=node_id, rel=ABCPropertyGraph.REL_CONNECTS,\n                                             node_label=ABCPropertyGraph.CLASS_ConnectionPoint)\n        for iif in interfaces:"},
     {'name': 'remove-node-without-disconnect', 'file': 'fim/user/topology.py', 'rule': 'R4',
-     'find': "        for i in self.nodes[name].interface_list:\n            # disconnect if connected to a network service\n            peers = i.get_peers(itype=InterfaceType.ServicePort)\n            if peers:\n                if len(peers) == 1:\n                    # disconnect from its parent service\n                    self.get_parent_element(peers[0]).disconnect_interface(i)\n                else:\n                    raise TopologyException(f'Interface {i.name} has more than one peer, this is a model error.')\n\n        self.graph_model.remove_network_node_with_components_nss_cps_and_links(\n            node_id=self._get_node_by_name(name=name).node_id)\n\n    def add_facility",
+     'find': "        # (sub-interfaces are connected to services on their own)\n        for i in [x for top in self.nodes[name].interface_list for x in (top,) + tuple(top.interface_list)]:\n            # disconnect if connected to a network service\n            peers = i.get_peers(itype=InterfaceType.ServicePort)\n            if peers:\n                if len(peers) == 1:\n                    # disconnect from its parent service\n                    self.get_parent_element(peers[0]).disconnect_interface(i)\n                else:\n                    raise TopologyException(f'Interface {i.name} has more than one peer, this is a model error.')\n\n        self.graph_model.remove_network_node_with_components_nss_cps_and_links(\n            node_id=self._get_node_by_name(name=name).node_id)\n\n    def add_facility",
      'replace': "        self.graph_model.remove_network_node_with_components_nss_cps_and_links(\n            node_id=self._get_node_by_name(name=name).node_id)\n\n    def add_facility"},
 ]
 TWINS = [
